@@ -122,3 +122,22 @@ package sfnt
 //@     invariant forall i int :: 0 <= i && i < len(s.glyphs) ==> newOutlines.Glyphs[i] == oldOutlines.Glyphs[s.glyphs[i]]
 //@     invariant oldOutlines.Encoding != nil ==> len(newOutlines.Encoding) == len(oldOutlines.Encoding) && forall c int :: 0 <= c && c < len(newOutlines.Encoding) ==> newOutlines.Encoding[c] == ite(has(s.newGid, oldOutlines.Encoding[c]), s.newGid[oldOutlines.Encoding[c]], 0)
 //@     invariant forall i int :: 0 <= i && i < iter ==> newOutlines.GIDToCID[i] == oldOutlines.GIDToCID[s.glyphs[i]]
+
+// SubsetCMap: a character is mapped in the subset exactly if it was mapped to
+// a retained glyph, and then to that glyph's new index.
+//@ func (s *subsetter) SubsetCMap(c cmap.Subtable) (res cmap.Subtable)   props: C10
+//@   requires s != nil && s.newGid != nil && (c == nil || is(c, cmap.Format4) || is(c, cmap.Format12))
+//@   ensures c == nil ==> res == nil
+//@   ensures c != nil && is(c, cmap.Format4) ==> is(res, cmap.Format4) && forall k uint16 :: has(res.(cmap.Format4), k) ==> has(c.(cmap.Format4), k) && has(s.newGid, c.(cmap.Format4)[k]) && res.(cmap.Format4)[k] == s.newGid[c.(cmap.Format4)[k]]
+//@   ensures c != nil && is(c, cmap.Format4) ==> forall k uint16 :: has(c.(cmap.Format4), k) && has(s.newGid, c.(cmap.Format4)[k]) ==> has(res.(cmap.Format4), k)
+//@   ensures c != nil && is(c, cmap.Format12) ==> is(res, cmap.Format12) && forall k uint32 :: has(res.(cmap.Format12), k) ==> has(c.(cmap.Format12), k) && has(s.newGid, c.(cmap.Format12)[k]) && res.(cmap.Format12)[k] == s.newGid[c.(cmap.Format12)[k]]
+//@   ensures c != nil && is(c, cmap.Format12) ==> forall k uint32 :: has(c.(cmap.Format12), k) && has(s.newGid, c.(cmap.Format12)[k]) ==> has(res.(cmap.Format12), k)
+//@   modifies nothing
+//@   loop 0
+//@     invariant res != nil && fresh(res) && forall k uint16 :: has(res, k) ==> seen(c, k) && has(s.newGid, c[k]) && res[k] == s.newGid[c[k]]
+//@     invariant forall k uint16 :: seen(c, k) && has(s.newGid, c[k]) ==> has(res, k)
+//@     invariant forall k uint16 :: seen(c, k) ==> has(c, k)
+//@   loop 1
+//@     invariant res != nil && fresh(res) && forall k uint32 :: has(res, k) ==> seen(c, k) && has(s.newGid, c[k]) && res[k] == s.newGid[c[k]]
+//@     invariant forall k uint32 :: seen(c, k) && has(s.newGid, c[k]) ==> has(res, k)
+//@     invariant forall k uint32 :: seen(c, k) ==> has(c, k)
